@@ -34,6 +34,7 @@ class Registry(object):
         self.jsonclass = jsonclass
         self.exc_factory = exc_factory or (lambda: ValueError("bad thing"))
         self.last_exc = None
+        self.shared_fault = None
         reg = self
 
         def echo(*a, **k):
@@ -80,7 +81,10 @@ class Registry(object):
         if method == "nonjson" and self.jsonclass:
             return Unconvertible()
         if method == "fault":
-            return Fault(-32001, "custom fault")
+            # one shared instance, as a module-level constant would be
+            if self.shared_fault is None:
+                self.shared_fault = Fault(-32001, "custom fault")
+            return self.shared_fault
         if method == "none":
             return None
         if method == "zero":
